@@ -45,6 +45,8 @@ type c14Shape struct {
 	params logqlengine.EvalParams
 	// invalid: the query holds an invalid stage / unsupported construct: Eval must fail even without a fault
 	invalid bool
+	// big: the second record of container 0 is a line of 300000 bytes; faults are then placed at chosen offsets only
+	big bool
 }
 
 var c14Shapes = []c14Shape{
@@ -63,6 +65,8 @@ var c14Shapes = []c14Shape{
 	{name: "setop-or-2", n: 2, query: `sum by (container) (count_over_time({container="n0"}[5s])) or sum by (container) (count_over_time({container="n1"}[5s]))`, params: logqlengine.EvalParams{Start: otelstorage.Timestamp(4 * sec), End: otelstorage.Timestamp(4 * sec), Limit: -1}},
 	{name: "setop-unless-2", n: 2, query: `sum(count_over_time({container="n0"}[5s])) unless sum(count_over_time({container="n1"} |= "nothing" [5s]))`, params: logqlengine.EvalParams{Start: otelstorage.Timestamp(2 * sec), End: otelstorage.Timestamp(4 * sec), Step: time.Second, Limit: -1}},
 	{name: "setop-and-3", n: 3, query: `sum(count_over_time({container=~"n0|n2"}[5s])) and sum(count_over_time({container="n1"}[5s]))`, params: logqlengine.EvalParams{Start: otelstorage.Timestamp(4 * sec), End: otelstorage.Timestamp(4 * sec), Limit: -1}},
+	{name: "log-big-2", n: 2, big: true, query: `{}`, params: logqlengine.EvalParams{Start: 0, End: otelstorage.Timestamp(10 * sec), Step: time.Second, Limit: -1}},
+	{name: "count-big-1", n: 1, big: true, query: `bytes_over_time({}[5s])`, params: logqlengine.EvalParams{Start: otelstorage.Timestamp(4 * sec), End: otelstorage.Timestamp(4 * sec), Limit: -1}},
 	{name: "binop-2x2", n: 2, query: `sum(count_over_time({}[3s])) / sum(count_over_time({} |= "m"[2s]))`, params: logqlengine.EvalParams{Start: otelstorage.Timestamp(2 * sec), End: otelstorage.Timestamp(4 * sec), Step: time.Second, Limit: -1}},
 }
 
@@ -81,6 +85,9 @@ func c14Containers(sh c14Shape, f c14Fault) (ctrs []fakedocker.Container, frameS
 		var frames [][]byte
 		for j := 0; j < 3; j++ {
 			payload := fakedocker.TS(int64(1+j)*sec+int64(i)) + " " + fmt.Sprintf("m%d-%d", i, j)
+			if sh.big && i == 0 && j == 1 {
+				payload += strings.Repeat("x", 300000)
+			}
 			stream := byte(1 + (i+j)%2)
 			if f.Ctr == i && f.At == j {
 				switch f.Kind {
@@ -408,7 +415,24 @@ func c14Run(r *vkit.Run) {
 		ps := perms(sh.n)
 		for i := 0; i < sh.n; i++ {
 			full := c14FullLog(sh, i)
+			positions := make([]int, 0, len(full)+1)
 			for p := 0; p <= len(full); p++ {
+				positions = append(positions, p)
+			}
+			if sh.big && i == 0 {
+				// the first frame and the header of the long one byte by byte, then chosen offsets inside the long body and
+				// around its end
+				_, starts := c14Containers(sh, c14Fault{Kind: "none"})
+				b := starts[0][1] + 8 // start of the long body
+				positions = positions[:b+40]
+				for _, off := range []int{4096, 65536, 262143, 262144, 262145, 262144 + 8, 262144 + 40, 299000} {
+					positions = append(positions, b+off)
+				}
+				for p := starts[0][2] - 3; p <= len(full); p++ {
+					positions = append(positions, p)
+				}
+			}
+			for _, p := range positions {
 				for _, pm := range ps {
 					if sh.n == 1 {
 						pm = nil
@@ -432,7 +456,8 @@ func c14Run(r *vkit.Run) {
 				}
 			}
 			// the same faults met by a Querier and Engine that have evaluated the query before
-			for p := 0; p <= len(full); p += 5 {
+			for pi := 0; pi < len(positions); pi += 5 {
+				p := positions[pi]
 				emit(c14Input{Shape: sh.name, Fault: c14Fault{Kind: "readerr", Ctr: i, At: p}, Mode: "perm", Perm: nilIf(sh.n == 1, ps[0]), Again: true})
 				emit(c14Input{Shape: sh.name, Fault: c14Fault{Kind: "truncate", Ctr: i, At: p}, Mode: "perm", Perm: nilIf(sh.n == 1, ps[len(ps)-1]), Again: true})
 			}
